@@ -327,10 +327,17 @@ def handleRnm3 (ts : List Tri) : String :=
     -- the vote flips the minority side of every group
     let minority := (gs.map fun g => min (g.countP (·.2)) (g.length - g.countP (·.2))).sum
     -- when the input is closed (every edge twice) the repaired mesh must be edge-balanced
+    -- (`repair_normals_majority_clean`)
     let closedOk := if !specNeedsRepair ts && noDegenerate ts then edgeBalanced out else true
+    -- the groups are the components of `Neighbors`, computed by naive closure
+    -- (`orientation_groups_are_components`)
+    let comps := canonGroups ((specComponents isNeighbor (enum ts)).map fun c => c.map (·.1))
+    let compsOk := if noDegenerate ts then comps == canonGroups (rel.map fun g => g.map (·.1)) else true
     s!"ok groups={showFlagGroups rel} flip={showNats flips} n={count} clean={boolStr clean}" ++
       (if minority != count then " MODELDIFF:minority" else "") ++
-      (if !closedOk then " MODELDIFF:closed" else "")
+      (if !closedOk then " MODELDIFF:closed" else "") ++
+      (if !compsOk then " MODELDIFF:components" else "") ++
+      (if noDegenerate ts && !clean then " MODELDIFF:whole-mesh" else "")
 
 /-! ### rn3 / rn2 -/
 
